@@ -303,13 +303,23 @@ def _family(kind, n):
         return [[Fraction(1, i + j + 1) + (1 if i == j else 0) for j in range(n)] for i in range(n)]
     if kind == 'cyclic':                 # cyclic shift of diag(1..n): every row has to move, zero leading pivot
         return [[(i + 1) if j == (i + 1) % n else 0 for j in range(n)] for i in range(n)]
+    if kind == 'prepivot':
+        # non-singular, well conditioned, but choosing every pivot row from the ORIGINAL columns leaves a pivot that is
+        # exactly zero during the elimination (in floats: a rounding error away from zero)
+        return {3: [[1, 1, 0], [1, 1, 1], [0, 1, 1]],
+                5: [[2, -4, 5, -6, 0], [3, -6, -2, 1, -6], [-9, 3, 7, -1, -6], [-4, -9, 0, -2, 8], [-1, 3, -2, 3, -9]]}[n]
     raise ValueError(kind)
 
 
 @scenario('C16', fns=['linalg.lu_solve', 'linalg.lu_factor', 'linalg.matrix_inverse', 'linalg.matrix_determinant',
                       'linalg.matrix_pivot', 'linalg.lu_decomposition'],
-          quick=[dict(kind=k, n=n) for k in ('vandermonde', 'tridiagonal', 'rational', 'cyclic') for n in (4, 6)],
-          thorough=[dict(kind=k, n=n) for k in ('vandermonde', 'tridiagonal', 'rational', 'cyclic') for n in (4, 5, 6, 7, 8)])
+          quick=[dict(kind=k, n=n) for k in ('vandermonde', 'tridiagonal', 'rational', 'cyclic') for n in (4, 6)]
+                + [dict(kind='prepivot', n=3), dict(kind='prepivot', n=5)],
+          thorough=[dict(kind=k, n=n) for k in ('vandermonde', 'tridiagonal', 'rational', 'cyclic') for n in (4, 5, 6, 7, 8)]
+                   + [dict(kind='prepivot', n=3), dict(kind='prepivot', n=5)],
+          # the same contracts at run time on native floats (A1 does not hold there: a pivot that is zero in exact
+          # arithmetic is a rounding error, and a solver that divides by it returns garbage instead of raising)
+          native=lambda tier: [dict(kind='prepivot', n=5), dict(kind='prepivot', n=3), dict(kind='vandermonde', n=5)])
 def concrete_matrix(ctx, kind, n):
     """requires: the stated non-singular integer / rational matrix, right-hand side with one symbolic column and one
                  concrete column
@@ -320,9 +330,11 @@ def concrete_matrix(ctx, kind, n):
     for name in ROUTINES:
         la.matrix_identity.cache_clear()         # every routine from the clean state (histories: see below)
         args = [clone(A)] + ([clone(b)] if name in ('lu_solve', 'lu_factor') else [])
+        if name == 'lu_solve' and kind == 'prepivot' and ctx.mode != 'sym':
+            continue                              # no row exchange at all: natively outside the contract as well
         if name == 'lu_decomposition':
-            if kind == 'cyclic':
-                continue                          # leading pivot is zero: outside that contract
+            if kind in ('cyclic', 'prepivot'):
+                continue                          # a pivot is zero without row exchanges: outside that contract
             c_lu_decomposition(ctx, la, *args)
         else:
             CONTRACT[name](ctx, la, *args)
